@@ -244,7 +244,8 @@ pub fn feature_modules() -> Vec<(&'static str, String)> {
 
 /// The repository's real-world modules, smallest first (path, text)
 pub fn real_world_modules(max: usize, max_bytes: usize) -> Vec<(String, String)> {
-    let dir = "/repo/rasn-compiler-tests/tests/modules";
+    let dir = format!("{}/rasn-compiler-tests/tests/modules", crate::common::repo_dir());
+    let dir = dir.as_str();
     let mut v: Vec<(u64, String)> = vec![];
     if let Ok(rd) = std::fs::read_dir(dir) {
         for e in rd.flatten() {
